@@ -7,6 +7,8 @@ for the regenerated stage running on the regenerated pool.  (A separate module s
 importing Props/C05 do not depend on stages they do not talk about.)
 -/
 import Golem.Props.C05
+import Golem.Gen.PipeText
+import Golem.Model.GoText
 import Golem.Props.Stage.PipeMap
 import Golem.Props.Stage.PipeFMap
 import Golem.Props.Stage.PipeFilter
@@ -110,5 +112,9 @@ theorem void_gen (as : List α) :
     ((mkStage (Gen.Pipe.Void.body (α := α)) Gen.Pipe.Void.final).run Gen.Pipe.Void.init as).ems = [] := by
   rw [PipeVoid.stage_gen]; exact void_spec as
 
-end Golem.Props.C05
+/-- `Seq` / `ToSeq` (no goroutine): the source text is, line for line, the one `seqChan` / `toSeq` (Model/Stages.lean) were
+written against — a syntactic tie (go/xlate family `gotext`) -/
+theorem seq_text : Gen.PipeText.Seq_text = GoText.Seq_text := rfl
+theorem toSeq_text : Gen.PipeText.ToSeq_text = GoText.ToSeq_text := rfl
 
+end Golem.Props.C05
